@@ -210,6 +210,10 @@ func (c *aeadCrypter) Decrypt(rand io.Reader, ciphertext, additionalData []byte,
 		return nil, fmt.Errorf("missing expected IV unprotected header")
 	}
 
+	if len(nonce) != c.AEAD.NonceSize() {
+		return nil, fmt.Errorf("IV has invalid length %d", len(nonce))
+	}
+
 	return c.AEAD.Open(ciphertext[:0], nonce, ciphertext, additionalData)
 }
 
@@ -312,6 +316,10 @@ func (c *ctrCrypter) Decrypt(rand io.Reader, ciphertext, additionalData []byte, 
 		return nil, fmt.Errorf("IV not included in header")
 	}
 
+	if len(iv) != c.Cipher.BlockSize() {
+		return nil, fmt.Errorf("IV has invalid length %d", len(iv))
+	}
+
 	plaintext = ciphertext
 	ctr := cipher.NewCTR(c.Cipher, iv)
 	ctr.XORKeyStream(plaintext, ciphertext)
@@ -383,9 +391,20 @@ func (c *cbcCrypter) Decrypt(rand io.Reader, ciphertext, additionalData []byte, 
 		return nil, fmt.Errorf("IV not included in header")
 	}
 
+	if len(iv) != c.Cipher.BlockSize() {
+		return nil, fmt.Errorf("IV has invalid length %d", len(iv))
+	}
+	if len(ciphertext) == 0 || len(ciphertext)%c.Cipher.BlockSize() != 0 {
+		return nil, fmt.Errorf("ciphertext length %d is not a positive multiple of the block size", len(ciphertext))
+	}
+
 	plaintext = ciphertext
 	cbc := cipher.NewCBCDecrypter(c.Cipher, iv)
 	cbc.CryptBlocks(plaintext, ciphertext)
+	padSize := int(plaintext[len(plaintext)-1])
+	if padSize == 0 || padSize > c.Cipher.BlockSize() || padSize > len(plaintext) {
+		return nil, fmt.Errorf("invalid padding")
+	}
 	plaintext = unpad(plaintext)
 
 	return plaintext, err
